@@ -364,7 +364,8 @@ impl ASN1Type {
                 // TODO: link components of Class field, such as COMPONENTS OF BILATERAL.&id
                 for comp_link in &s.components_of {
                     if let Some(ToplevelDefinition::Type(linked)) = tlds.get(comp_link) {
-                        if let ASN1Type::Sequence(linked_seq) | ASN1Type::Set(linked_seq) = &linked.ty
+                        if let ASN1Type::Sequence(linked_seq) | ASN1Type::Set(linked_seq) =
+                            &linked.ty
                         {
                             linked_seq
                                 .members
@@ -462,6 +463,25 @@ impl ASN1Type {
                 }
             }
             ty => {
+                // The named numbers of a type are in scope of the type's own constraints.
+                // The type itself is not part of `tlds` while it is being linked.
+                let own_named_numbers = match ty {
+                    ASN1Type::Integer(i) => i.distinguished_values.is_some(),
+                    ASN1Type::Enumerated(_) => true,
+                    _ => false,
+                }
+                .then(|| {
+                    let mut scope = tlds.clone();
+                    scope.insert(
+                        name.clone(),
+                        ToplevelDefinition::Type(ToplevelTypeDefinition::from((
+                            name.as_str(),
+                            ty.clone(),
+                        ))),
+                    );
+                    scope
+                });
+                let tlds = own_named_numbers.as_ref().unwrap_or(tlds);
                 if let Some(c) = ty.constraints_mut() {
                     for c in c.iter_mut() {
                         c.link_cross_reference(name, tlds)?;
